@@ -20,6 +20,8 @@
 //!     default `fill_glyph` (the real one: `RecDefault` does not override it);
 //!  L. truncation: for each of the 32 paint formats, rooted directly and below a PaintTranslate, every
 //!     prefix of the compiled table, and the record moved to the table end with 0..=4 bytes missing;
+//!  M. every variable paint kind, VarColorStop fills and the variable ClipBox x VarIndexMap {absent, map
+//!     count 0/1/2/12} x entry sizes 1-4 x inner bit counts x store {absent, no regions, normal};
 //!  I. fonts where glyph 1 has both a COLR v0 record and a v1 paint, painted via get(), v1 and v0;
 //!  C. COLR v0 base glyph / layer records incl. out-of-range ranges;
 //!  D. chains of depth 63, 64, 65 and 1000 for every unary kind, both composite operands, layer chains
@@ -524,7 +526,7 @@ fn for_each_forest(trees: &[Vec<Node>], n: usize, f: &(dyn Fn(&Graph, &mut Acc) 
                 fn rec(trees: &[Vec<Node>], sizes: &[usize], slots: &mut Vec<Node>, nb: usize, f: &(dyn Fn(&Graph, &mut Acc) + Sync), acc: &mut Acc, count: &mut u64) {
                     if slots.len() == sizes.len() {
                         for clip in [false, true] {
-                            let g = Graph { bases: slots[..nb].to_vec(), layers: slots[nb..].to_vec(), clip, var_store: false, v0: None };
+                            let g = Graph { bases: slots[..nb].to_vec(), layers: slots[nb..].to_vec(), clip, var_store: false, v0: None, var_map: None, store_empty: false, clip_var: false };
                             f(&g, acc);
                             *count += 1;
                         }
@@ -586,7 +588,7 @@ fn substitutions(n: &Node) -> Vec<(Node, bool)> {
 
 fn chain_graph(kind: &str, depth: usize) -> Graph {
     let solid = || Node::Fill(Fill::Solid);
-    let mut g = Graph { bases: vec![], layers: vec![], clip: false, var_store: false, v0: None };
+    let mut g = Graph { bases: vec![], layers: vec![], clip: false, var_store: false, v0: None, var_map: None, store_empty: false, clip_var: false };
     match kind {
         "ColrLayers" => {
             g.bases.push(Node::ColrLayers(0, 1));
@@ -1123,7 +1125,7 @@ fn body(run: &Run, replay: Option<&Value>) {
     let graphs_a = for_each_forest(&trees, n, &|g, acc| judge_all_modes(run, g, &coords0, acc), run, "A");
     run.count("A.graphs", graphs_a);
     eprintln!("[c13] A done at {:.1}s: {} graphs", run.elapsed(), graphs_a);
-    run.sample(json!({"family":"A","example": Graph{bases:vec![Node::Unary(Un::Glyph, Box::new(Node::ColrLayers(0,2)))], layers: vec![Node::Fill(Fill::Solid), Node::ColrLayers(0,1)], clip:true, var_store:false, v0: None}.to_json()}));
+    run.sample(json!({"family":"A","example": Graph{bases:vec![Node::Unary(Un::Glyph, Box::new(Node::ColrLayers(0,2)))], layers: vec![Node::Fill(Fill::Solid), Node::ColrLayers(0,1)], clip:true, var_store:false, v0: None, var_map: None, store_empty: false, clip_var: false}.to_json()}));
 
     // G: multi-kind products: every forest in which EACH node ranges over the full alphabet (all fills
     // incl. variable and degenerate ones, all 21 unary kinds, ColrGlyph x3, ColrLayers x12, Composite).
@@ -1165,6 +1167,10 @@ fn body(run: &Run, replay: Option<&Value>) {
     // L: truncated tables for every paint format
     family_truncation(run);
     eprintln!("[c13] L done at {:.1}s", run.elapsed());
+
+    // M: variable paints x VarIndexMap shapes x store shapes
+    family_var_index_map(run);
+    eprintln!("[c13] M done at {:.1}s", run.elapsed());
 
     // H: degenerate gradient geometry and colour lines ("returns and is balanced" only)
     family_gradients(run);
@@ -1270,7 +1276,7 @@ fn family_glyph_transform_chains(run: &Run) {
                     if let Some(b2) = base2 {
                         bases.push(b2.clone());
                     }
-                    let mut g = Graph { bases, layers: layers.clone(), clip: false, var_store: false, v0: None };
+                    let mut g = Graph { bases, layers: layers.clone(), clip: false, var_store: false, v0: None, var_map: None, store_empty: false, clip_var: false };
                     graphs += 1;
                     let before = acc.ok;
                     if uses_var(&g.bases[0]) {
@@ -1462,7 +1468,7 @@ fn truncation_table(fmt: u8, wrapped: bool, var_store: bool) -> Result<(Vec<u8>,
     if let Some(b2) = base2 {
         bases.push(b2);
     }
-    let g = Graph { bases, layers, clip: false, var_store, v0: None };
+    let g = Graph { bases, layers, clip: false, var_store, v0: None, var_map: None, store_empty: false, clip_var: false };
     let bytes = write_fonts::dump_table(&build_colr(&g)).map_err(|e| format!("{e:?}"))?;
     let blist = be32(&bytes, 14);
     // record 0 of the BaseGlyphList is glyph 1: glyph id u16, paint offset u32
@@ -1543,6 +1549,59 @@ fn family_truncation(run: &Run) {
     run.count("L.truncated_tables", total.load(Ordering::Relaxed));
 }
 
+
+/// M: variable paints x VarIndexMap shapes x store shapes. Every variable paint kind (10 transform kinds,
+/// 4 fills with VarColorStops) as root and below a PaintGlyph, and a variable ClipBox over a plain fill,
+/// with VarIndexMap {absent, mapCount 0, 1, 2 (short: the index clamps to the last entry), 12} x entry
+/// sizes 1..=4 bytes x inner bit counts {1, 4, 8, 16} (where they fit) x store {absent, no regions,
+/// normal}, at the default and a non-default location, both client answers, both fill_glyph styles.
+fn family_var_index_map(run: &Run) {
+    let solid = || Node::Fill(Fill::Solid);
+    let mut roots: Vec<(Node, bool)> = vec![]; // (root, variable clip box)
+    for u in UNARIES.iter().filter(|u| format!("{u:?}").starts_with("Var")) {
+        roots.push((Node::Unary(*u, Box::new(solid())), false));
+        roots.push((Node::Unary(Un::Glyph, Box::new(Node::Unary(*u, Box::new(solid())))), false));
+    }
+    for f in [Fill::VarSolid, Fill::VarLinear, Fill::VarRadial, Fill::VarSweep] {
+        roots.push((Node::Fill(f), false));
+        roots.push((Node::Unary(Un::Glyph, Box::new(Node::Fill(f))), false));
+    }
+    roots.push((solid(), true));
+    roots.push((Node::Unary(Un::VarTranslate, Box::new(solid())), true));
+    let mut maps: Vec<Option<(u16, u8, u8)>> = vec![None];
+    for count in [0u16, 1, 2, 12] {
+        for entry_size in 1..=4u8 {
+            for inner_bits in [1u8, 4, 8, 16] {
+                if inner_bits as u32 <= entry_size as u32 * 8 {
+                    maps.push(Some((count, entry_size, inner_bits)));
+                }
+            }
+        }
+    }
+    // (var_store, store_empty)
+    let stores = [(false, false), (true, true), (true, false)];
+    run.bound(
+        "M.var_index_map",
+        json!({"roots": roots.len(), "variable_kinds": "10 variable transform kinds and 4 variable fills (VarColorStop), each as root and below PaintGlyph; variable ClipBox (format 2) over Solid and over VarTranslate",
+               "var_index_map": {"absent": true, "map_counts": [0, 1, 2, 12], "entry_sizes": [1, 2, 3, 4], "inner_bit_counts": [1, 4, 8, 16], "shapes": maps.len()},
+               "store": ["absent", "present with no regions", "one region, 12 rows"], "locations": [[], [0.5]]}),
+    );
+    let coords: Vec<Vec<f32>> = vec![vec![], vec![0.5]];
+    let jobs: Vec<(usize, usize)> = (0..roots.len()).flat_map(|r| (0..maps.len()).map(move |mi| (r, mi))).collect();
+    let graphs = AtomicU64::new(0);
+    jobs.par_iter().for_each(|(r, mi)| {
+        let mut acc = Acc::new();
+        for (var_store, store_empty) in stores {
+            let (root, clip_var) = &roots[*r];
+            let g = Graph { bases: vec![root.clone()], layers: vec![], clip: *clip_var, var_store, v0: None, var_map: maps[*mi], store_empty, clip_var: *clip_var };
+            graphs.fetch_add(1, Ordering::Relaxed);
+            judge_all_modes(run, &g, &coords, &mut acc);
+        }
+        flush(run, acc, "M");
+    });
+    run.count("M.graphs", graphs.load(Ordering::Relaxed));
+}
+
 fn family_gradients(run: &Run) {
     let stops = grad_stop_lists().len() as u8;
     let mut specs = vec![];
@@ -1571,7 +1630,7 @@ fn family_gradients(run: &Run) {
                 Node::Unary(Un::Translate, Box::new(leaf.clone())),
                 Node::Unary(Un::Glyph, Box::new(Node::Unary(Un::Scale, Box::new(leaf.clone())))),
             ] {
-                let g = Graph { bases: vec![root], layers: vec![], clip: false, var_store: false, v0: None };
+                let g = Graph { bases: vec![root], layers: vec![], clip: false, var_store: false, v0: None, var_map: None, store_empty: false, clip_var: false };
                 judge_all_modes(run, &g, &coords0, &mut acc);
             }
         }
@@ -1591,7 +1650,7 @@ fn family_mixed(run: &Run) {
             for first in 0..=2u16 {
                 for num in 0..=3u16 {
                     for nl in 0..=1usize {
-                        graphs.push(Graph { bases: vec![t.clone()], layers: vec![Node::Fill(Fill::Solid); nl], clip: false, var_store: false, v0: Some((first, num, nrec)) });
+                        graphs.push(Graph { bases: vec![t.clone()], layers: vec![Node::Fill(Fill::Solid); nl], clip: false, var_store: false, v0: Some((first, num, nrec)), var_map: None, store_empty: false, clip_var: false });
                     }
                 }
             }
